@@ -888,3 +888,174 @@ Proof.
   - vm_compute. reflexivity.
   - vm_compute. reflexivity.
 Qed.
+
+(* ====================================================================================== *)
+(* StripRaw: ordinary text is untouched                                                   *)
+(* ====================================================================================== *)
+
+
+Lemma recolor_aux_skipn n r : recolor_aux n r = recolor_aux 0 (skipn n r).
+Proof.
+  revert r. induction n as [|n IH]; intros r; [reflexivity|].
+  destruct r as [|c r]; [reflexivity|]. simpl. apply IH.
+Qed.
+
+Lemma plain_skip n r : forallb erasable (firstn n r) = true -> plain_text (skipn n r) = plain_text r.
+Proof.
+  revert r. induction n as [|n IH]; intros r H; [reflexivity|].
+  destruct r as [|c r]; [reflexivity|]. simpl in H. apply andb_true_iff in H as [Hc H].
+  simpl. rewrite Hc. simpl. now apply IH.
+Qed.
+
+Lemma digit_erasable b : is_digit b = true -> erasable b = true.
+Proof. unfold erasable. intros ->. now rewrite orb_true_r. Qed.
+
+Lemma match_num_erasable s n : match_num s = Some n -> forallb erasable (firstn n s) = true.
+Proof.
+  destruct s as [|a [|b s]]; simpl; [discriminate| |].
+  - destruct (is_digit a) eqn:A; [|discriminate]. intros [= <-]. simpl. now rewrite digit_erasable.
+  - destruct (in_019 a && is_digit b) eqn:E.
+    + intros [= <-]. apply andb_true_iff in E as [E1 E2]. apply in_019_digit in E1. simpl.
+      now rewrite !digit_erasable.
+    + destruct (is_digit a) eqn:A; [|discriminate]. intros [= <-]. simpl. now rewrite digit_erasable.
+Qed.
+
+Lemma forallb_firstn_add (f : N -> bool) n m s :
+  forallb f (firstn n s) = true -> forallb f (firstn m (skipn n s)) = true ->
+  forallb f (firstn (n + m) s) = true.
+Proof.
+  revert s. induction n as [|n IH]; intros s H1 H2; [exact H2|].
+  destruct s as [|c s]; [reflexivity|]. simpl in *. apply andb_true_iff in H1 as [Hc H1].
+  rewrite Hc. simpl. now apply IH.
+Qed.
+
+Lemma match_color_tail_erasable s n :
+  match_color_tail s = Some n -> forallb erasable (firstn n s) = true.
+Proof.
+  unfold match_color_tail. destruct (match_num s) as [n1|] eqn:E1; [|discriminate].
+  pose proof (match_num_erasable _ _ E1) as H1.
+  destruct (skipn n1 s) as [|c r2] eqn:Es; [intros [= <-]; exact H1|].
+  destruct (N.eqb c comma_c) eqn:Ec; [|intros [= <-]; exact H1].
+  destruct (match_num r2) as [n2|] eqn:E2; [|intros [= <-]; exact H1].
+  intros [= <-]. rewrite <- Nat.add_assoc. apply forallb_firstn_add; [exact H1|].
+  rewrite Es. simpl. unfold erasable at 1. rewrite Ec, orb_true_r. simpl.
+  now apply match_num_erasable.
+Qed.
+
+Lemma skipn_length_le {A} n (s : list A) : (length (skipn n s) <= length s)%nat.
+Proof. rewrite skipn_length. lia. Qed.
+
+Lemma recolor_plain_fuel fuel s :
+  (length s <= fuel)%nat -> plain_text (recolor_aux 0 s) = plain_text s.
+Proof.
+  revert s. induction fuel as [|f IH]; intros s Hl.
+  - destruct s; [reflexivity|simpl in Hl; lia].
+  - destruct s as [|c r]; [reflexivity|]. simpl in Hl. rewrite recolor_aux_cons0.
+    assert (plain_text (c :: recolor_aux 0 r) = plain_text (c :: r)) as Keep.
+    { simpl. rewrite IH by lia. reflexivity. }
+    destruct (N.eqb c 3) eqn:E3; [|exact Keep].
+    destruct (match_color_tail r) as [n|] eqn:M; [|exact Keep].
+    apply N.eqb_eq in E3. subst c. rewrite recolor_aux_skipn.
+    rewrite IH by (pose proof (skipn_length_le n r); lia).
+    rewrite plain_skip by (now apply match_color_tail_erasable). reflexivity.
+Qed.
+
+(* every byte that is not a control byte, a digit or a comma survives, in order *)
+Lemma strip_raw_plain s : plain_text (strip_raw s) = plain_text s.
+Proof.
+  rewrite strip_raw_filter. unfold plain_text at 1. rewrite filter_filter.
+  rewrite <- (recolor_plain_fuel (length s) s (le_n _)). unfold plain_text, recolor.
+  apply filter_ext_bool. intros x. unfold erasable. destruct (is_ctrl x); reflexivity.
+Qed.
+
+(* and nothing is added or reordered: the result is a subsequence of the input *)
+
+Lemma subseq_nil_l b : subseq [] b.
+Proof. induction b; constructor; auto. Qed.
+
+Lemma subseq_filter f s : subseq (filter f s) s.
+Proof. induction s as [|c s IH]; simpl; [constructor|]. destruct (f c); constructor; exact IH. Qed.
+
+Lemma subseq_trans a b c : subseq a b -> subseq b c -> subseq a c.
+Proof.
+  intros H1 H2. revert a H1. induction H2 as [|x b c H2 IH|x b c H2 IH]; intros a H1.
+  - exact H1.
+  - inversion H1; subst; [constructor; auto|apply sub_drop; auto].
+  - apply sub_drop. auto.
+Qed.
+
+Lemma subseq_skipn n s : subseq (skipn n s) s.
+Proof.
+  revert s. induction n as [|n IH]; intros s; simpl.
+  - induction s; constructor; auto.
+  - destruct s; [constructor|apply sub_drop, IH].
+Qed.
+
+Lemma recolor_subseq_fuel fuel s : (length s <= fuel)%nat -> subseq (recolor_aux 0 s) s.
+Proof.
+  revert s. induction fuel as [|f IH]; intros s Hl.
+  - destruct s; [constructor|simpl in Hl; lia].
+  - destruct s as [|c r]; [constructor|]. simpl in Hl. rewrite recolor_aux_cons0.
+    assert (subseq (c :: recolor_aux 0 r) (c :: r)) as Keep by (constructor; apply IH; lia).
+    destruct (N.eqb c 3); [|exact Keep].
+    destruct (match_color_tail r) as [n|]; [|exact Keep].
+    apply sub_drop. rewrite recolor_aux_skipn.
+    eapply subseq_trans; [apply IH; pose proof (skipn_length_le n r); lia|apply subseq_skipn].
+Qed.
+
+Lemma strip_raw_subseq s : subseq (strip_raw s) s.
+Proof.
+  rewrite strip_raw_filter. eapply subseq_trans; [apply subseq_filter|].
+  apply (recolor_subseq_fuel (length s)), le_n.
+Qed.
+
+(* ====================================================================================== *)
+(* Fmt: a {word} that is not a known name is deleted                                      *)
+(* ====================================================================================== *)
+
+Lemma alpha_lower_no_comma n : forallb is_alpha n = true -> ~ In comma_c (to_lower_ascii n).
+Proof.
+  rewrite forallb_forall. intros H X. unfold to_lower_ascii in X. apply in_map_iff in X as (x & E & Hx).
+  apply H in Hx. unfold lower1, is_alpha, is_upper, is_lower, comma_c in *.
+  destruct ((65 <=? x) && (x <=? 90)) eqn:U; lia.
+Qed.
+
+Lemma fmt_repl_unknown n :
+  forallb is_alpha n = true -> colour_of n = None -> code_of n = None -> fmt_repl n = [].
+Proof.
+  unfold colour_of, code_of. intros Ha Hc Hd. unfold fmt_repl.
+  rewrite split_comma_none by now apply alpha_lower_no_comma.
+  cbn [fst snd]. unfold fmt_repl_parts. now rewrite Hc, Hd.
+Qed.
+
+
+Lemma fmt_scan_piece_word out p t :
+  (forall s, p = Lit s -> no_open s) -> word_or_known p ->
+  fmt_scan out None (render1 p ++ t) = fmt_scan (out ++ expected1 p) None t.
+Proof.
+  intros HL HK. destruct p as [s|n|f b]; try (now apply fmt_scan_piece).
+  simpl in HK. simpl render1. simpl expected1.
+  change ((fmt_open :: n ++ [fmt_close]) ++ t) with (fmt_open :: (n ++ [fmt_close]) ++ t).
+  rewrite <- app_assoc. change ([fmt_close] ++ t) with (fmt_close :: t).
+  rewrite fmt_scan_token by now apply alpha_all_tok.
+  destruct (colour_of n) as [c|] eqn:Ec; [now rewrite (fmt_repl_colour _ _ Ec)|].
+  destruct (code_of n) as [cb|] eqn:Ed; [now rewrite (fmt_repl_code _ _ Ec Ed)|].
+  now rewrite fmt_repl_unknown.
+Qed.
+
+Lemma fmt_pieces_words ps :
+  lits_ok no_open ps -> Forall word_or_known ps -> fmt (render ps) = expected ps.
+Proof.
+  intros HL HK. unfold fmt. rewrite <- (app_nil_r (render ps)).
+  assert (forall out t, fmt_scan out None (render ps ++ t) = fmt_scan (out ++ expected ps) None t) as G.
+  { induction HK as [|p ps K HK IH]; intros out t.
+    - simpl. now rewrite app_nil_r.
+    - rewrite render_cons, expected_cons, <- app_assoc.
+      rewrite fmt_scan_piece_word; [|intros s ->; apply HL; now left|exact K].
+      rewrite IH by (intros s Hs; apply HL; now right). now rewrite <- app_assoc. }
+  rewrite G. reflexivity.
+Qed.
+
+Example fmt_unknown_word_deleted :
+  fmt (bs "use {braces} here, {RED}now") = bs "use  here, " ++ [3; 48; 52] ++ bs "now".
+Proof. vm_compute. reflexivity. Qed.
